@@ -86,9 +86,18 @@ func mutate(t *rapid.T, in []byte) []byte {
 	return b
 }
 
+// headerPieces are the building blocks of a log line's header; lines glued together from them reach every
+// boundary of the header parser (a missing space, an empty type name, a missing colon, two "msg=" ...).
+var headerPieces = []string{"type=", "msg=", "audit(", "1.000", ":", "2", ")", " ", "SYSCALL", "UNKNOWN[", "1300", "]", ".", "=", "",
+	"type", "msg", "audit", "(", "1", "000", "-", "99999999999999999999", "\t", "'", "node=h ", "): ", "a=b", "x"}
+
 func genC05(t *rapid.T) C05Case {
 	var c C05Case
-	switch rapid.IntRange(0, 9).Draw(t, "src") {
+	switch rapid.IntRange(0, 11).Draw(t, "src") {
+	case 10, 11: // header soup
+		c.Typ = rapid.SampledFrom(enrichTypes).Draw(t, "typ")
+		c.Input = []byte(strings.Join(rapid.SliceOfN(rapid.SampledFrom(headerPieces), 0, 14).Draw(t, "pieces"), ""))
+		c.AsLine = rapid.IntRange(0, 3).Draw(t, "line") != 0
 	case 0: // arbitrary bytes
 		c.Typ = rapid.OneOf(rapid.Uint16(), rapid.SampledFrom(enrichTypes)).Draw(t, "typ")
 		c.Input = rapid.SliceOfN(rapid.Byte(), 0, 200).Draw(t, "bytes")
@@ -115,6 +124,11 @@ func genC05(t *rapid.T) C05Case {
 		if rapid.IntRange(0, 5).Draw(t, "line") == 0 {
 			c.AsLine = true
 			c.Input = []byte("type=" + auparse.AuditMessageType(c.Typ).String() + " msg=" + string(raw))
+			if rapid.IntRange(0, 2).Draw(t, "damageprefix") == 0 {
+				// damage the "type=NAME msg=audit(" part too
+				n := min(len(c.Input), 40)
+				c.Input = append(mutate(t, c.Input[:n]), c.Input[n:]...)
+			}
 		}
 	}
 	return c
@@ -202,6 +216,36 @@ func propC05(c C05Case) error {
 func TestC05Regress(t *testing.T) { hx.Regress(t, hC05, "TestC05", propC05) }
 
 func TestC05(t *testing.T) { hx.Check(t, hC05, "TestC05", genC05, propC05) }
+
+// TestC05HeaderSoup enumerates every concatenation of up to five of the first fifteen header pieces (about
+// 800 000 lines) through ParseLogLine, and the ones without "type=" through Parse as well.
+func TestC05HeaderSoup(t *testing.T) {
+	pieces := headerPieces[:15]
+	depth := 5
+	if !hx.Thorough() {
+		depth = 4
+	}
+	var rec func(prefix string, d int)
+	rec = func(prefix string, d int) {
+		for _, asLine := range []bool{true, false} {
+			c := C05Case{Typ: 1300, Input: []byte(prefix), AsLine: asLine}
+			hC05.Eval()
+			if err := hx.Guard(propC05, c); err != nil {
+				hC05.Fail(t, "TestC05", c, "%v", err)
+			}
+		}
+		if d == depth {
+			return
+		}
+		for _, p := range pieces {
+			if p != "" {
+				rec(prefix+p, d+1)
+			}
+		}
+	}
+	rec("", 0)
+	hC05.Class("header-soup-sweep")
+}
 
 // TestC05RepoLogs replays every line of the repository's test logs through the
 // oracle under every enrichment type (a cheap differential: the line's own type
